@@ -466,6 +466,7 @@ def _run(ctx, rng, quick, nmax, threads_set, impl):
                                 **BUDGET[solver], **kw)
                     if before:
                         args['before'] = before
+                    args['via'] = ['ctor', 'ctor', 'set_params', 'attr'][(gi + rep) % 4]
                     res = impl(k).call('c04', 'pagerank', args, timeout=30)
                     ctx.traces += 1
                     nontrivial = alpha > 0 or form != 'none'
@@ -593,7 +594,8 @@ def _run(ctx, rng, quick, nmax, threads_set, impl):
     kvals = safe_coq_eval(ctx, 'c04katz', IMPORTS, exprs, prelude=PRELUDE, shard=100)
     kvals = [fr(v) for v in kvals] if kvals is not None else [None] * len(kcases)     # None: model dead, brute force only
     for (fam, r, c, ent, alpha, K), model in zip(kcases, kvals):
-        args = dict(m=mspec(r, c, ent, rng.choice(['float', 'int'])), damping=float(alpha), path_length=K)
+        args = dict(m=mspec(r, c, ent, rng.choice(['float', 'int'])), damping=float(alpha), path_length=K,
+                    via=rng.choice(['ctor', 'ctor', 'set_params', 'attr']))
         res = impl(1).call('c04', 'katz', args)
         ctx.traces += 1
         ctx.count('katz', ('katz', args), K > 0)
